@@ -4,6 +4,7 @@
 -/
 import NdnVerif.C15.Lemmas
 import NdnVerif.C15.LemmasFetch
+import NdnVerif.C15.LemmasBolt
 namespace Ndn.C15
 
 /-! ### Produce: segmentation -/
@@ -49,31 +50,41 @@ example : fillSeg [[1, 2], []] 2 = ([1, 2], [[]]) ∧ fillSeg [[]] 2 = ([], []) 
 
 /-! ### stores: newest version, removal -/
 
+/-- bolt keeps its keys sorted: the empty store is, `Put` and `Remove` preserve it — so every store
+    reachable by the operations satisfies the hypothesis `BSorted` of the next theorem -/
+theorem bolt_reachable_sorted :
+    BSorted [] ∧ (∀ s p, BSorted s → BSorted (boltPut s p)) ∧ (∀ s n pfx, BSorted s → BSorted (boltRemove s n pfx)) :=
+  ⟨List.Pairwise.nil, fun s p h => boltPutKey_sorted s _ h, fun s n pfx h => boltRemove_sorted s n pfx h⟩
+
 /-- bolt, prefix query, at most 999 keys under the prefix (guard = the code's scan limit, F-15d): the
-    answer is a scanned entry of maximal version; nothing scanned ⇒ no answer.
+    answer is a stored packet whose key extends the query key and whose version is maximal among ALL
+    stored packets whose key extends the query key (version 0 included); none stored ⇒ no answer.
     The full statement (no guard) is false for the code: with more than 999 keys under the prefix the
     packets beyond the 999th are never looked at (replay corpus/C15/bolt-scan-limit.ops). -/
-theorem newest_version_selected_bolt_partial (s : Bolt) (name : Name)
+theorem newest_version_selected_bolt_partial (s : Bolt) (hs : BSorted s) (name : Name)
     (hguard : (boltScan s (encKey name)).length ≤ boltScanLimit) :
-    ((boltScan s (encKey name)) = [] → boltGet s name true = none) ∧
-    ((boltScan s (encKey name)) ≠ [] →
-      ∃ e ∈ boltScan s (encKey name), boltGet s name true = some e.pkt ∧
-        ∀ e' ∈ boltScan s (encKey name), e'.ver ≤ e.ver) := by
-  have htake : (boltScan s (encKey name)).take boltScanLimit = boltScan s (encKey name) :=
-    List.take_of_length_le hguard
-  have hs := boltNewest_spec (boltScan s (encKey name)) none
+    ((∀ e ∈ s, (encKey name).isPrefixOf e.key = false) → boltGet s name true = none) ∧
+    ((∃ e ∈ s, (encKey name).isPrefixOf e.key = true) →
+      ∃ e ∈ s, (encKey name).isPrefixOf e.key = true ∧ boltGet s name true = some e.pkt ∧
+        ∀ e' ∈ s, (encKey name).isPrefixOf e'.key = true → e'.ver ≤ e.ver) := by
+  have hscan := bolt_scan_newest s name hguard
+  have hiff := boltScan_mem_iff s hs (encKey name)
   constructor
-  · intro he
-    simp [boltGet, he, boltNewest]
-  · intro hne
-    simp only [boltGet, if_true, htake]
-    split at hs
-    · exact absurd hs.1 hne
-    · rename_i r hr
-      obtain ⟨h1, h2, _⟩ := hs
-      rcases h1 with h1 | h1
-      · exact ⟨r, h1, by simp [hr], h2⟩
-      · cases h1
+  · intro hnone
+    apply hscan.1
+    apply List.eq_nil_iff_forall_not_mem.mpr
+    intro e he
+    have := (hiff e).mp he
+    rw [hnone e this.1] at this
+    cases this.2
+  · intro ⟨e0, he0, hp0⟩
+    have hne : boltScan s (encKey name) ≠ [] := by
+      intro hnil
+      have := (hiff e0).mpr ⟨he0, hp0⟩
+      rw [hnil] at this; cases this
+    obtain ⟨e, he, hget, hmax⟩ := hscan.2 hne
+    have := (hiff e).mp he
+    exact ⟨e, this.1, this.2, hget, fun e' he' hp' => hmax e' ((hiff e').mpr ⟨he', hp'⟩)⟩
 
 def exPkt (n : Nat) : Pkt := { name := [⟨8, [n]⟩], fb := none, content := [n] }
 def exBolt : Bolt := boltPut (boltPut [] ⟨[⟨8, [1]⟩, ⟨8, [1]⟩], 5, exPkt 1⟩) ⟨[⟨8, [1]⟩, ⟨8, [2]⟩], 3, exPkt 2⟩
